@@ -28,7 +28,13 @@ RULE = (
     "count > 1. One history in eight is a branch-count history (C03's "
     "family: the same successor types with different multiplicities arrive "
     "in different chunks), compared by model file and by text up to branch "
-    "order. Distinct by SHA-1 of the JSON case.")
+    "order. (c) OTel-route histories: a C14 data set (1..3 workflows) is "
+    "delivered in two parts (drawn per trace); `otel2puml -om` on part 1, "
+    "then `otel2puml -im <model of every workflow of part 1> -om` on part "
+    "2 through the real entry point, against `otel2puml -om` on "
+    "everything: per workflow of part 2 equal model files and equivalent "
+    "diagrams; non-trivial: a workflow occurs in both parts with different "
+    "sets of trace shapes. Distinct by SHA-1 of the JSON case.")
 ASSUMPTIONS = [
     "language equivalence is bounded (loops <=2, 1500 executions)",
     "the chunks of a history use fresh temp directories; files are written "
@@ -295,6 +301,158 @@ def run_history(case, ctx=None):
         shutil.rmtree(tmp, ignore_errors=True)
 
 
+def _otel_parts(case):
+    """(whole, part 1, part 2) data sets of an OTel-route history."""
+    base = {k: v for k, v in case["otel"].items()
+            if k not in ("mapping", "order", "dup_records")}
+    base["time_buffer"] = 0
+    mask = case["part"]
+    parts = ([], [])
+    i = 0
+    for w in base["workflows"]:
+        tr = ([], [])
+        for t in w["traces"]:
+            tr[mask[i % len(mask)]].append(t)
+            i += 1
+        for k in (0, 1):
+            if tr[k]:
+                parts[k].append(dict(w, traces=tr[k]))
+    return base, dict(base, workflows=parts[0]), dict(base, workflows=parts[1])
+
+
+def run_otel_history(case, ctx=None):
+    """The same statement on the otel2puml route: `otel2puml -om` on a first
+    delivery of OTel data (several workflows), then `otel2puml -im m1 -im m2
+    ... -om` on a second delivery, against `otel2puml -om` on everything."""
+    import checks.c03 as c03
+    import checks.c14 as c14
+    whole, p1, p2 = _otel_parts(case)
+    if not p1["workflows"] or not p2["workflows"]:
+        if ctx:
+            ctx.count("otel_history_with_an_empty_part")
+        return
+    names2 = [w["name"] for w in p2["workflows"]]
+    names1 = [w["name"] for w in p1["workflows"]]
+    if ctx:
+        nt, cl = c14.classify(whole)
+        both = [n for n in names2 if n in names1]
+        def shapes(part, n):
+            return {tuple(sorted(t[1] for t in tr)) for w in part["workflows"]
+                    if w["name"] == n for tr in w["traces"]}
+        differ = [n for n in both if shapes(p1, n) != shapes(p2, n)]
+        if differ:
+            cl.append("a_workflow_shows_other_trace_shapes_in_part_2")
+        ctx.record(case, bool(differ),
+                   ["otel_route"] + cl + [f"models_loaded={len(names1)}",
+                                          f"workflows_in_both_parts="
+                                          f"{len(both)}"])
+    tmp = tempfile.mkdtemp(prefix="verif-c04o-")
+    try:
+        def run(tag, data, sched, models=()):
+            d = os.path.join(tmp, tag)
+            os.makedirs(d)
+            cfgp, _ = c14.write_inputs(data, d)
+            out = os.path.join(d, "out")
+            argv = ["-o", out, "otel2puml", "-c", cfgp, "-om"]
+            for mp in models:
+                argv += ["-im", mp]
+            learn.SCHED.reseed(sched)
+            learn._STEPS["n"] = 0
+            learn._STEPS["limit"] = 2000 * 40 * 6
+            try:
+                rc, msg = c14.cli(argv)
+            except learn.NonTermination as e:
+                rc, msg = 99, str(e)
+            finally:
+                learn._STEPS["limit"] = 0
+            return rc, msg, out
+
+        def outputs(out, name):
+            stem = os.path.join(out, name.replace(" ", "_"))
+            return stem + ".puml", stem + "_model.json"
+        sched = case.get("sched", 0)
+        rcW, msgW, outW = run("W", whole, sched)
+        rc1, msg1, out1 = run("H1", p1, sched + 1)
+        if rc1 != 0:
+            if ctx:
+                ctx.count("first_part_not_learnable_(C01)")
+            return
+        models = []
+        for n in names1:
+            mp = outputs(out1, n)[1]
+            if not os.path.exists(mp):
+                raise Violation(f"otel2puml -om wrote no model for {n!r}: "
+                                f"{sorted(os.listdir(out1))}")
+            models.append(mp)
+        rc2, msg2, out2 = run("H2", p2, sched + 2, models)
+        if (rcW != 0) != (rc2 != 0):
+            raise Violation(
+                f"otel2puml on everything exits {rcW} but the second of two "
+                f"deliveries through {len(models)} saved model(s) exits "
+                f"{rc2}: {msgW if rcW else msg2}")
+        if rcW != 0:
+            if ctx:
+                ctx.count("both_routes_fail_alike_(C01)")
+            return
+        for n in names2:
+            tW, mW = outputs(outW, n)
+            t2, m2 = outputs(out2, n)
+            for fp in (tW, mW, t2, m2):
+                if not os.path.exists(fp):
+                    raise Violation(f"expected output {fp[len(tmp):]} "
+                                    f"missing")
+            a, b = model_of_file(mW), model_of_file(m2)
+            if a != b:
+                bad = sorted(t for t in set(a[1]) | set(b[1])
+                             if a[1].get(t) != b[1].get(t))
+                raise Violation(
+                    f"workflow {n!r}: model after two deliveries (models "
+                    f"loaded for {names1}) differs from the all-at-once "
+                    f"model (names {a[0]!r}, {b[0]!r}) for {bad}: "
+                    f"{[(a[1].get(t), b[1].get(t)) for t in bad[:2]]}")
+            with open(tW) as f:
+                textW = f.read()
+            with open(t2) as f:
+                text2 = f.read()
+            msg = c03.equivalent(textW, text2, sched)
+            if not msg:
+                continue
+            unstable = False
+            for k in range(1, 5):
+                rc, _, o = run(f"W{n}{k}".replace("/", "_"), whole,
+                               sched + 4242 * k)
+                if rc != 0:
+                    unstable = True
+                    break
+                with open(outputs(o, n)[0]) as f:
+                    tw = f.read()
+                if not c03.equivalent(tw, text2, 0) or \
+                        c03.equivalent(tw, textW, 0):
+                    unstable = True
+                    break
+                rc, _, o = run(f"H{n}{k}".replace("/", "_"), p2,
+                               sched + 4242 * k + 1, models)
+                if rc != 0:
+                    unstable = True
+                    break
+                with open(outputs(o, n)[0]) as f:
+                    th = f.read()
+                if not c03.equivalent(th, textW, 0) or \
+                        c03.equivalent(th, text2, 0):
+                    unstable = True
+                    break
+            if unstable:
+                if ctx:
+                    ctx.count("learner_unstable_on_same_model_(C03)")
+                continue
+            raise Violation(
+                f"workflow {n!r}: diagram after two OTel deliveries through "
+                f"saved models is not equivalent to all-at-once: {msg}\n"
+                f"all at once:\n{textW}\nincremental:\n{text2}")
+    finally:
+        shutil.rmtree(tmp, ignore_errors=True)
+
+
 def run_model_roundtrip(case, ctx=None):
     learn.install()
     from tel2puml.events import (Event, EventSet, save_events_to_file,
@@ -354,6 +512,8 @@ def run_model_roundtrip(case, ctx=None):
 def run_case(case, ctx=None):
     if "model" in case:
         run_model_roundtrip(case, ctx)
+    elif "otel" in case:
+        run_otel_history(case, ctx)
     else:
         run_history(case, ctx)
 
@@ -405,11 +565,22 @@ def strategies():
         ts = draw(st.lists(names, min_size=1, max_size=6, unique=True))
         return {"model": {t: [draw(fam), draw(fam)] for t in ts},
                 "name": draw(st.sampled_from(["wf", "a b", "x/y"]))}
-    return history(), model()
+    import checks.c14 as c14
+
+    @st.composite
+    def otel(draw):
+        o = draw(c14.strategy())
+        total = sum(len(w["traces"]) for w in o["workflows"])
+        part = draw(st.lists(st.integers(0, 1), min_size=max(2, total),
+                             max_size=max(2, total)))
+        if total >= 2 and len(set(part[:total])) == 1:
+            part[0] = 1 - part[0]          # both deliveries non-empty
+        return {"otel": o, "part": part, "sched": o.get("sched", 0)}
+    return history(), model(), otel()
 
 
 def run_shard(ctx):
-    hist, model = strategies()
+    hist, model, otel = strategies()
     from hypothesis import strategies as st
 
     def fn(case):
@@ -432,5 +603,14 @@ def run_shard(ctx):
     n = 25 if ctx.tier == "quick" else 900
     if ctx.run_given(hist, fn, n, shrinker=pvcase.shrinker):
         return
-    ctx.run_given(model, fn, 150 if ctx.tier == "quick" else 3000,
-                  shrinker=lambda c: iter(()), salt=1)
+    if ctx.run_given(model, fn, 150 if ctx.tier == "quick" else 3000,
+                     shrinker=lambda c: iter(()), salt=1):
+        return
+
+    def otel_shrinker(case):
+        import checks.c14 as c14
+        for o in c14.shrinker(case["otel"]):
+            yield dict(case, otel=o)
+    ctx.run_given(otel, lambda c: run_otel_history(c, ctx),
+                  6 if ctx.tier == "quick" else 150, shrinker=otel_shrinker,
+                  salt=2)
